@@ -220,6 +220,23 @@ fn atomize_with_top_of(max: u8) {
     kani::assert((count == 0) == was_bot, "C06:no_atoms_iff_bottom");
     kani::assert(re == WithTop::new(if some { Some(SetUnion::new(a)) } else { None }), "C06:atoms_merge_back_to_the_value");
 }
+/// WithBot<SetUnion> with CONCRETE shapes (None / Some(empty set) / Some(one-element set); the element is symbolic).  MEASURED: only the
+/// `None` shape is within reach (1 s); the `Some` shapes exceed 900 s like the symbolic-shape version (Box<dyn Iterator> + flat_map): `deep_`, no tier
+fn atomize_with_bot_shape(some: bool, n: usize) {
+    let mut a = TinySet::default();
+    if n == 1 { a.insert(kani::any()); }
+    let wb: WithBot<SetUnion<TinySet>> = WithBot::new(if some { Some(SetUnion::new(a)) } else { None });
+    let was_bot = wb.is_bot();
+    kani::assert(was_bot == (!some || n == 0), "C06:no_atoms_iff_bottom");
+    let mut re: WithBot<SetUnion<TinySet>> = Default::default();
+    let mut count = 0;
+    for atom in wb.atomize() { kani::assert(!atom.is_bot(), "C06:no_bottom_atom"); re.merge(atom); count += 1; }
+    kani::assert((count == 0) == was_bot, "C06:no_atoms_iff_bottom");
+    kani::assert(re == WithBot::new(if some { Some(SetUnion::new(a)) } else { None }), "C06:atoms_merge_back_to_the_value");
+}
+#[kani::proof] #[kani::unwind(8)] pub(crate) fn atomize_with_bot_shape_none() { atomize_with_bot_shape(false, 0) }
+#[kani::proof] #[kani::unwind(8)] pub(crate) fn deep_atomize_with_bot_shape_some_empty() { atomize_with_bot_shape(true, 0) }
+#[kani::proof] #[kani::unwind(8)] pub(crate) fn deep_atomize_with_bot_shape_some_one() { atomize_with_bot_shape(true, 1) }
 #[kani::proof] #[kani::unwind(8)] pub(crate) fn deep_atomize_with_bot_one() { atomize_with_bot_of(1) }   // > 40 min of CBMC: in NO tier
 #[kani::proof] #[kani::unwind(8)] pub(crate) fn atomize_with_top_one() { atomize_with_top_of(1) }
 /// two-element instances: > 30 min of CBMC each (Box<dyn Iterator> + flat_map); kept for the record, in NO tier
@@ -366,6 +383,26 @@ impl IntoIterator for TinyPairs { type Item = (u8, u8); type IntoIter = core::it
 impl cc_traits::Len for TinyPairs { fn len(&self) -> usize { self.n } }
 
 /// KeyedBimorphism (value bimorphism = cartesian product) against its model: keys = common keys, value = product of values
+/// the same contract with CONCRETE keys (same key / different keys): the map double's control flow is then concrete
+fn keyed_bimorphism_keys(ka: u8, kb: u8) {
+    let mut ma = TinyMap::<SetUnion<TinySet>>::default();
+    let mut mb = TinyMap::<SetUnion<TinySet>>::default();
+    let (sa, sb) = (small_set(1), small_set(1));
+    ma.insert(ka, SetUnion::new(sa));
+    mb.insert(kb, SetUnion::new(sb));
+    let mut f = KeyedBimorphism::<TinyMap<SetUnion<TinyPairs>>, _>::new(CartesianProductBimorphism::<TinyPairs>::default());
+    let out = f.call(MapUnion::new(ma), MapUnion::new(mb)).into_reveal();
+    if ka == kb {
+        kani::assert(out.n == 1 && out.k[0] == ka, "C07:keyed_bimorphism_keeps_exactly_the_common_keys");
+        let (x, y): (u8, u8) = (kani::any(), kani::any());
+        kani::assert(out.v[0].as_reveal_ref().has(x, y) == (sa.has(x) && sb.has(y)), "C07:keyed_bimorphism_applies_value_bimorphism_per_key");
+    } else {
+        kani::assert(out.n == 0, "C07:keyed_bimorphism_keeps_exactly_the_common_keys");
+    }
+}
+#[kani::proof] #[kani::unwind(8)] pub(crate) fn keyed_bimorphism_same_key() { keyed_bimorphism_keys(7, 7) }
+#[kani::proof] #[kani::unwind(8)] pub(crate) fn keyed_bimorphism_different_keys() { keyed_bimorphism_keys(7, 9) }
+
 #[kani::proof] #[kani::unwind(8)]
 pub(crate) fn deep_keyed_bimorphism_is_keywise() {   // 30 min of CBMC on a quiet machine: in NO tier
     let mut ma = TinyMap::<SetUnion<TinySet>>::default();
